@@ -49,7 +49,7 @@ Fixpoint chk (mode : cmode) (j : json) {struct j} : bool :=
   | MNd =>
       match j with
       | JArr xs => (fix go (l : list json) : bool := match l with [] => true | x :: l' => chk MState x && go l' end) xs
-      | _ => true          (* a rank-0 object array re-uses the content of its cell's state *)
+      | _ => false         (* the content of an object array is a list of states for every rank (C13-F1 repaired) *)
       end
   | MDictStates =>
       match j with
@@ -96,22 +96,3 @@ Inductive name_shape : pstr -> Prop :=
 | NSnpz id : name_shape (npz_name id)
 | NSbin n : name_shape (uuid_name n)
 | NSschema : name_shape (s "schema.json").
-
-(* no rank-0 object array inside v (its dump re-uses a cell state's content and cannot be loaded) *)
-Fixpoint no_rank0 (v : pval) : bool :=
-  let fix all (l : list pval) : bool := match l with [] => true | x :: l' => no_rank0 x && all l' end in
-  let fix vals (l : list (dkey * pval)) : bool := match l with [] => true | (_, x) :: l' => no_rank0 x && vals l' end in
-  match v with
-  | PSeq _ _ _ _ _ l => all l
-  | PDict _ _ _ l => vals l
-  | PDefDict _ _ _ f l => no_rank0 f && vals l
-  | PObjArr _ _ _ sh l => match sh with [] => false | _ => all l end
-  | PMasked _ _ _ d k => no_rank0 d && no_rank0 k
-  | PRandState _ _ _ x => no_rank0 x
-  | PRandGen _ _ _ x y => no_rank0 x && no_rank0 y
-  | PPartial _ _ _ f a k n => no_rank0 f && no_rank0 a && no_rank0 k && no_rank0 n
-  | POpFunc _ _ a => no_rank0 a
-  | PMethod _ _ _ x => no_rank0 x
-  | PObj _ _ _ _ _ _ x => no_rank0 x
-  | _ => true
-  end.
